@@ -653,6 +653,33 @@ func judgeC16(c *core.Case, cfg *core.Config) core.Verdict {
 		}
 		// typing is compositional: an array literal of two member expressions is accepted exactly when each of them
 		// is (whatever the checker remembered from the first while it looks at the second)
+		// (every member is also tried with the names the OTHER members have: a method of *T on a T member)
+		suffixes := map[string]bool{}
+		owners := map[string]bool{}
+		for _, e := range nested {
+			i := strings.IndexByte(e, '.')
+			owners[e[:i]], suffixes[e[i:]] = true, true
+		}
+		have := map[string]bool{}
+		for _, e := range nested {
+			have[e] = true
+		}
+		var ownerList, suffixList []string
+		for o := range owners {
+			ownerList = append(ownerList, o)
+		}
+		for sfx := range suffixes {
+			suffixList = append(suffixList, sfx)
+		}
+		sort.Strings(ownerList)
+		sort.Strings(suffixList)
+		for _, o := range ownerList {
+			for _, sfx := range suffixList {
+				if !have[o+sfx] {
+					nested = append(nested, o+sfx)
+				}
+			}
+		}
 		acc := map[string]bool{}
 		for _, e := range nested {
 			acc[e] = c16Compile(e, env) == nil
